@@ -161,6 +161,9 @@ def triangulate(polygon):
     polygon = [np.array(x) for x in polygon]
 
     normal = calculate_normal(polygon)
+    # Ear test threshold relative to the size of the polygon (|normal| is twice
+    # its area), so that small polygons can be triangulated as well.
+    ear_threshold = 1E-6 * min(1.0, float(np.dot(normal, normal)))
     i = 0
     while len(polygon) > 2:
         if i >= len(polygon):
@@ -175,7 +178,7 @@ def triangulate(polygon):
         x = np.cross(c - b, b - a)
         dot = np.dot(normal, x)
         yld = False
-        if dot > 1E-6:
+        if dot > ear_threshold:
             triangle = (a, b, c)
             if not any_point_in_triangle(triangle,
                                          looped_slice_inv(polygon, i, 3)):
